@@ -23,13 +23,19 @@ impl<'a> BerDecoder<'a> for SnmpInt {
         if h.is_empty() {
             return Ok(SnmpInt(0));
         }
+        if h.length > 8 {
+            // Does not fit into i64
+            return Err(SnmpError::InvalidData);
+        }
         let v = i
             .iter()
             .take(h.length)
             .map(|x| *x as i64)
             .reduce(|acc, x| (acc << 8) | x)
             .unwrap_or(0);
-        Ok(SnmpInt(if i[0] & 0x80 == 0 {
+        Ok(SnmpInt(if i[0] & 0x80 == 0 || h.length == 8 {
+            // Non-negative, or all 64 bits are filled and
+            // the sign is already in place
             v
         } else {
             // Negative number
